@@ -1,5 +1,5 @@
 """C03 — descriptor handlers run only for kernel-reported conditions, right cookie."""
-from ..core import (AnalysisBroken, Inliner, canon, strip, last_member, must_pass, relpath, norm_cond, walk, forward)
+from ..core import (names_of, same_value, AnalysisBroken, Inliner, canon, strip, last_member, must_pass, relpath, norm_cond, walk, forward)
 from ..analyses import (is_call, holding, path_to, describe, exits_of, callback_kind, loops, innermost_loop,
                         list_empty_test, must_pass_from_block)
 from .. import generic
